@@ -10,7 +10,7 @@ from . import c11
 
 def shapes(chk):
     vt = [v for v, _ in rl.VUL]
-    mult = [[1], [2], [1, 1], [3], [2, 2]] if chk.quick else [[1], [2], [3], [1, 1], [2, 1], [1, 1, 1], [3, 2]]
+    mult = [[1], [2], [1, 1], [3], [2, 2], [0], [0, 1]] if chk.quick else [[1], [2], [3], [1, 1], [2, 1], [1, 1, 1], [3, 2], [0], [0, 1], [0, 0], [2, 0]]
     out = {'vul': [], 'opt': [], 'qa': []}
     for r in range(0, 5):
         for sub in itertools.combinations(vt, r):
@@ -33,7 +33,7 @@ def shapes(chk):
 def body(chk):
     chk.bounds = {'vulnerability maps': 'all 16 subsets of the 4 patterns x file/line multiplicities up to 3 files / 3 lines',
                   'optimisation maps': 'seeded subsets of up to 5 patterns + one map with 12 patterns x 2 lines',
-                  'category parts': 'all 8 combinations of empty / non-empty vulnerability, optimisation and QA maps',
+                  'category parts': 'all 27 combinations of absent / with findings / only empty line sets for the vulnerability, optimisation and QA maps',
                   'names / lines': 'symbolic (as C11)', 'outside': 'as C11'}
     chk.assumptions = ['as C11; severity of each vulnerability taken from the property text']
     sh = shapes(chk)
